@@ -32,6 +32,18 @@ def showPair : Option (Option (Nat × Nat)) → String
   | some none => "none"
   | some (some (a, b)) => s!"some {a} {b}"
 
+/-- the `(B1, B2)` a `match n.bits()` strategy function uses: first row with `lo ≤ bits ≤ hi` (guard 0) -/
+def armRun (arms : List (Nat × Nat × Nat × List (Nat × Nat))) (bits : Nat) : Option (List (Nat × Nat)) :=
+  match arms.find? (fun a => a.1 ≤ bits && bits ≤ a.2.1 && a.2.2.1 == 0) with
+  | some a => some a.2.2.2
+  | none => none
+
+def showArm (arms : List (Nat × Nat × Nat × List (Nat × Nat))) (n p l : Nat) : String :=
+  match armRun arms (Ymq.ExpModn.bitlen n) with
+  | none => "panic"
+  | some [] => "none"
+  | some ((b1, b2) :: _) => if b1 ≤ 3 then "panic" else showFound n p (pm1Stage2Hits b1 b2 l) true
+
 def handleStage2 : Handler
   | ["s2_row", consumer, idx] => do
     let t ← s2Table consumer
@@ -53,6 +65,12 @@ def handleStage2 : Handler
     let n ← parseNat n; let b1 ← parseNat b1; let b2 ← parseNat b2; let p ← parseNat p; let l ← parseNat l
     if b1 ≤ 3 then some "panic" else                 -- assert!(b1 > 3)
     some (showFound n p (pm1Stage2Hits b1 b2 l) true)
+  | ["s2_pm1_only", n, p, l] => do
+    let n ← parseNat n; let p ← parseNat p; let l ← parseNat l
+    some (showArm Stage2.pm1OnlyArms n p l)
+  | ["s2_pm1_quick", n, p, l] => do
+    let n ← parseNat n; let p ← parseNat p; let l ← parseNat l
+    some (showArm Stage2.pm1QuickArms n p l)
   | ["s2_pp1", n, _seed, b1, b2, p, l] => do
     let n ← parseNat n; let b1 ← parseNat b1; let b2 ← parseNat b2; let p ← parseNat p; let l ← parseNat l
     if b1 ≤ 3 then some "panic" else
@@ -83,6 +101,32 @@ def handleStage2 : Handler
     some (match gcdFactors n vals pp with
       | none => "panic"
       | some (fs, rest) => s!"{showList fs} {rest}")
+  | ["s2_cgf", n, factors, nred, vals] => do
+    let n ← parseNat n; let factors ← parseNatList factors; let nred ← parseNat nred; let vals ← parseNatList vals
+    let pp := fun p => match Ymq.Pseudoprime.pseudoprime p with | some b => b | none => false
+    some (match checkGcdFactors n pp { factors := factors, nred := nred, vals := vals } with
+      | none => "panic"
+      | some (b, st) => s!"{showBool b} {showList st.factors} {st.nred} {showList st.vals}")
+  | ["s2_cgf1", n, vals] => do
+    let n ← parseNat n; let vals ← parseNatList vals
+    let pp := fun p => match Ymq.Pseudoprime.pseudoprime p with | some b => b | none => false
+    some (match checkGcdFactor n vals pp with
+      | none => "panic"
+      | some r => showOptNat r)
+  | ["s2_rho_impl", n, seed, iters] => do
+    let n ← parseNat n; let seed ← parseNat seed; let iters ← parseNat iters
+    if n % 2 = 0 ∨ n < 3 ∨ n ≥ 2 ^ 512 then none else
+    let pp := fun p => match Ymq.Pseudoprime.pseudoprime p with | some b => b | none => false
+    some (match rhoImpl n seed iters pp with
+      | none => "panic"
+      | some none => "none"
+      | some (some (fs, rest)) => s!"some {showList ((fs.toArray.qsort (· < ·)).toList)} {rest}")
+  | ["s2_pm1base", n, budget, p, _l, j] => do
+    -- annotation j: index of the missing prime l among the large primes (re-checked by the oracle);
+    -- only budgets that run the whole of stage 1 are predicted
+    let n ← parseNat n; let budget ← parseNat budget; let p ← parseNat p; let j ← parseNat j
+    if budget < Stage2Arms.pm1base.1 then none else
+    some (if j < min 65536 (budget - Stage2Arms.pm1base.2.2.1) then s!"some {p} {n / p}" else "none")
   | ["s2_rho64", n, c, iters] => do
     let n ← parseNat n; let c ← parseNat c; let iters ← parseNat iters
     some (showPair (rho64 n c iters))
